@@ -125,6 +125,14 @@ def ob_goal_order(ctx, n):
             goal_case(res, n, ('a',))
             break
         res.witnesses += int(witness(ctx, res, env, st, z3.BoolVal(True)))
+    # a law the solver cannot decide (`unknown`) must not hide a violation of the next one: remember it, go on
+    pending = []
+
+    def park():
+        if res.status == 'inconclusive':
+            pending.append(res.detail)
+            res.status, res.detail = 'holds', ''
+    park()
     # antisymmetric
     if res.status == 'holds':
         env, paths = explore(lambda env, eng, st, g: (total_order(ctx, eng, st, g, 'a', 'b'), total_order(ctx, eng, st, g, 'b', 'a')))
@@ -138,6 +146,7 @@ def ob_goal_order(ctx, n):
                 goal_case(res, n, ('a', 'b'))
                 break
             res.witnesses += int(witness(ctx, res, env, st, ab.discr == -1))
+    park()
     # lexicographic equivalence on NaN-free fitness
     if res.status == 'holds':
         env, paths = explore(lambda env, eng, st, g: total_order(ctx, eng, st, g, 'a', 'b'))
@@ -155,6 +164,8 @@ def ob_goal_order(ctx, n):
                 goal_case(res, n, ('a', 'b'))
                 break
             res.witnesses += int(witness(ctx, res, env, st, z3.And(out.discr == 1, *nan_free)))
+    if res.status == 'holds' and pending:
+        res.status, res.detail = 'inconclusive', ' | '.join(pending)
     if res.status == 'holds' and res.witnesses == 0:
         res.status, res.detail = 'inconclusive', 'vacuous'
     res.time = time.time() - t0
